@@ -6,6 +6,7 @@ import (
 	"fmt"
 	"math"
 	"testing"
+	"time"
 
 	satisfaction_levels "github.com/Azbesciak/RealDecisionMaker/lib/logic/limited-rationality/satisfaction-levels"
 	"github.com/Azbesciak/RealDecisionMaker/lib/model"
@@ -293,6 +294,14 @@ func judgeC14Api(c ReqCase) *Fail {
 		return nil
 	}
 	st.inc("C14:api:" + v.Method)
+	// "the series is ... finite": a generated series that never ends shows as a decision that never returns
+	ended := make(chan struct{}, 1)
+	go func() { decide([]byte(c.Req)); ended <- struct{}{} }()
+	select {
+	case <-ended:
+	case <-time.After(30 * time.Second):
+		return failf("series-ends", "%s with %v does not return within 30 s (normal latency is below 5 ms): the generated series does not end", v.Method, v.MP["params"])
+	}
 	var f *Fail
 	if v.Method == "aspectEliminationHeuristic" {
 		f = judgeC12(c)
